@@ -19,6 +19,19 @@ def handleW (o : Op) : String :=
       let (ws, cw) := writeAll mode c0 rnd ps
       let wires : List Bytes := ws.filterMap fun w => match w with | Except.ok b => some b | Except.error _ => none
       let stream := wires.flatten
+      -- caller-memory contract (FRAMEWORK.md): what the writers do to the caller's buffers.
+      -- p: streamPacketCipher XORs the caller's payload in place (`e` = it now holds its ciphertext, bytes 5.. of the
+      --    packet), the GCM / CBC / chacha20 writers copy it first (`s` = unchanged; also `s` when the ciphertext
+      --    happens to equal the payload, e.g. the `none` cipher)
+      -- wiv: gcmCipher keeps the caller's IV slice and increments it in place; every other mode leaves it alone
+      -- mut / ralias: nothing else is written, readPacket results are private copies
+      let isStream := match mode with | .stream _ => true | _ => false
+      let isGcm := match mode with | .gcm _ => true | _ => false
+      let pst := String.join ((ps.zip wires).map fun pw =>
+        if isStream && (pw.2.drop 5).take pw.1.length != pw.1 then "e" else "s")
+      let pst := if pst.isEmpty then "-" else pst
+      let wiv := toHex (if isGcm then cw.st.iv else iv)
+      let mem := s!";p={pst};wiv={wiv};mut=-/-;ralias=-"
       if o.get? "edge" == some "maxpkt" then
         -- op class `edge=maxpkt` (payloads of maxPacket-8 … maxPacket bytes): here the driver answers what the
         -- PROPERTY STATEMENT says — "a reader keyed like the writer returns exactly the written payloads" for
@@ -28,10 +41,10 @@ def handleW (o : Op) : String :=
         let oks : List (Except RErr Bytes × Nat) :=
           (ps.zip wires).map fun pw => (Except.ok pw.1, pw.2.length)
         let rs := oks ++ [(Except.error RErr.eof, 0)]
-        s!"w={showWrites ws};seq={cw.seq.toNat};r={showRead rs};rseq={(c0.seq + UInt32.ofNat rs.length).toNat}"
+        s!"w={showWrites ws};seq={cw.seq.toNat};r={showRead mode.isCbc rs};rseq={(c0.seq + UInt32.ofNat rs.length).toNat}{mem}"
       else
       let (rs, cr) := readAll mode (wires.length + 1) c0 stream
-      s!"w={showWrites ws};seq={cw.seq.toNat};r={showRead rs};rseq={cr.seq.toNat}"
+      s!"w={showWrites ws};seq={cw.seq.toNat};r={showRead mode.isCbc rs};rseq={cr.seq.toNat}{mem}"
   | _, _, _, _, _, _ => "bad-op"
 
 /-- stand-in validation ops: the primitives alone, against the Go standard library -/
